@@ -718,6 +718,12 @@ func (e *cenv) exec(m map[string]string) string {
 }
 
 func (circuitSuite) Run(h map[string]string, ops []string) []string {
+	if h["epoch"] == "2300" {
+		// "under any substitute clock": one whose readings lie beyond what int64 nanoseconds since 1970 can express
+		// (after 2262).  Still the real future, so no derived deadline fires for real.
+		defer func(b time.Time) { clockBase = b }(clockBase)
+		clockBase = time.Date(2300, 1, 1, 0, 0, 0, 0, time.UTC)
+	}
 	e := newCenv(h)
 	out := make([]string, len(ops))
 	for i, op := range ops {
@@ -847,6 +853,7 @@ func (circuitSuite) Gen(r *rand.Rand, i int) Case {
 		// override flags present from the start (they reach the circuit through layered construction)
 		hdr += fmt.Sprintf(" fo=%d fc=%d swap=%d", r.Intn(2), 1-r.Intn(2)*r.Intn(2), r.Intn(2))
 	}
+	epoch2300 := r.Intn(8) == 0
 	pt := ""
 	if r.Intn(16) == 0 {
 		pt = pick(r, "nil", "zero") // C08: a nil circuit and a zero-value circuit run the function untouched
@@ -1105,6 +1112,19 @@ func (circuitSuite) Gen(r *rand.Rand, i int) Case {
 			c.Ops = append(c.Ops, fmt.Sprintf("closercfg sleep=%d half=%d req=%d", []int64{0, 1, 20, 200}[r.Intn(4)], r.Intn(4)-1, r.Intn(4)-1))
 		default:
 			c.Ops = append(c.Ops, fmt.Sprintf("openercfg pct=%d vol=%d thr=%d", r.Intn(101), r.Intn(4), r.Intn(4)))
+		}
+	}
+	if epoch2300 {
+		// not together with a caller context that must have REALLY expired: its deadline is placed before the substitute
+		// clock's origin, which for this origin would still be the real future
+		really := false
+		for _, op := range c.Ops {
+			if strings.Contains(op, "ctx=expired") {
+				really = true
+			}
+		}
+		if !really {
+			c.Header += " epoch=2300"
 		}
 	}
 	return c
